@@ -11,7 +11,7 @@ from vf.gast import grammar_text, shrink_rules, tup
 PROPERTY = 'C04'
 RULE = ('generated grammars (C01 generator with cuts, biased by a wrapper that retries the start rule at the same position after '
         'backtracking: `VF_RETRY: &x x | x "!!" | [x "??"] x`) and layered left-recursive expression grammars (vf.lrgen) x multi-line '
-        'inputs x variants {memoization off (non-LR only), perlinememos in {0.01, 0.5, 1, 8}, prune_memos_on_cut on/off, trace on (output '
+        'inputs (a third of the non-LR grammars decorate random rules with @nomemo / @nostak) x variants {memoization off (non-LR only), perlinememos in {0.01, 0.5, 1, 8}, prune_memos_on_cut on/off, trace on (output '
         'discarded), colorize on/off, parseinfo on} and pairs of them; oracle: outcome (ok+AST / failure class) equals the default '
         'configuration\'s outcome; an identity-returning counting semantics must see the same set of (rule, ast) pairs and no more calls '
         'with memoization than without. non-trivial = memoization saved at least one rule-body evaluation, or the input has >= 2 lines '
@@ -128,6 +128,10 @@ def check(gtext, start, text, lr, model=None, pick=None):
     return None, info
 
 
+def decorated_text(rules, deco):
+    return grammar_text([dict(name=n, exp=x, decorators=tuple((deco or {}).get(n, ()))) for n, x in rules])
+
+
 def plan(tier):
     n = 100 if tier == 'quick' else 2000
     return [dict(n=n) for _ in range(16)]
@@ -153,7 +157,13 @@ def run_shard(sh, n):
         else:
             rules = gen.gen_rules(rnd, gcfg)
             start0 = rules[0][0]
-            gtext = grammar_text(rules) + RETRY % dict(s=start0)
+            deco = {}
+            if rnd.random() < 0.35:
+                # @nomemo / @nostak are hints (memo use, call stack shown in traces and errors): they must not change an outcome either
+                for rn, _ in rules:
+                    if rnd.random() < 0.4:
+                        deco[rn] = rnd.choice([('nomemo',), ('nostak',), ('nomemo', 'nostak')])
+            gtext = decorated_text(rules, deco) + RETRY % dict(s=start0)
             start = 'VF_RETRY'
             rmap = dict(rules)
             inputs = []
@@ -174,6 +184,8 @@ def run_shard(sh, n):
             d, info = check(gtext, start, text, lr, model, pick)
             nt = info.get('saved', 0) > 0 or '\n' in text or ('~' in gtext and info.get('base') == 'ok')
             cls = ['lr' if lr else 'non-lr', f'base:{info.get("base")}']
+            if not lr and deco:
+                cls.append('has @nomemo/@nostak rules')
             if info.get('saved', 0) > 0:
                 cls.append('memo-hit')
             if '\n' in text:
@@ -182,7 +194,7 @@ def run_shard(sh, n):
             if info.get('timeout'):
                 sh.flag('inconclusive-timeout')
             if d is not None:
-                sh.fail(d['bucket'], dict(grammar=gtext, start=start, input=text, lr=lr, pick=pick, rules=None if lr else rules, start0=start0), d)
+                sh.fail(d['bucket'], dict(grammar=gtext, start=start, input=text, lr=lr, pick=pick, rules=None if lr else rules, deco=None if lr else deco, start0=start0), d)
     hyp_run(sh, gen.rnds(), body, n)
 
 
@@ -199,4 +211,8 @@ def shrink_candidates(case):
         rules = [(n, tup(x)) for n, x in case['rules']]
         for r2 in shrink_rules(rules):
             if r2[0][0] == case['start0']:
-                yield dict(case, rules=r2, grammar=grammar_text(r2) + RETRY % dict(s=case['start0']))
+                yield dict(case, rules=r2, grammar=decorated_text(r2, case.get('deco')) + RETRY % dict(s=case['start0']))
+        if case.get('deco'):
+            for k in case['deco']:
+                d2 = {a: b for a, b in case['deco'].items() if a != k}
+                yield dict(case, deco=d2, grammar=decorated_text(rules, d2) + RETRY % dict(s=case['start0']))
